@@ -644,11 +644,13 @@ impl<'a> Interp<'a> {
         let main = self.p.main.clone();
         self.block(&main)?;
         let f = self.frames.pop().unwrap();
-        Ok(ModelRun { emits: self.emits, vars: f.vars, unknown: f.unknown, probes: self.probes })
+        Ok(ModelRun { steps: self.steps, emits: self.emits, vars: f.vars, unknown: f.unknown, probes: self.probes })
     }
 }
 
 pub struct ModelRun {
+    /// statements the model executed
+    pub steps: u64,
     pub emits: Vec<ExpEmit>,
     pub vars: BTreeMap<String, String>,
     pub unknown: BTreeSet<String>,
